@@ -146,16 +146,23 @@ func matchStatement(cur Statement, node ipld.Node) (_ matchResult, leafMost Stat
 		}
 	case KindAnd:
 		if s, ok := cur.(connective); ok {
+			optionalNoData := false
 			for _, cs := range s.statements {
 				res, leaf := matchStatement(cs, node)
 				switch res {
-				case matchResultNoData, matchResultOptionalNoData:
+				case matchResultNoData:
 					return res, leaf
+				case matchResultOptionalNoData:
+					// the remaining statements still have to hold
+					optionalNoData = true
 				case matchResultTrue:
 					// continue
 				case matchResultFalse:
 					return matchResultFalse, leaf
 				}
+			}
+			if optionalNoData {
+				return matchResultOptionalNoData, nil
 			}
 			return matchResultTrue, nil
 		}
@@ -205,6 +212,7 @@ func matchStatement(cur Statement, node ipld.Node) (_ matchResult, leafMost Stat
 			if it == nil {
 				return matchResultFalse, cur // not a list
 			}
+			optionalNoData := false
 			for !it.Done() {
 				_, v, err := it.Next()
 				if err != nil {
@@ -212,13 +220,19 @@ func matchStatement(cur Statement, node ipld.Node) (_ matchResult, leafMost Stat
 				}
 				matchRes, leaf := matchStatement(s.statement, v)
 				switch matchRes {
-				case matchResultNoData, matchResultOptionalNoData:
+				case matchResultNoData:
 					return matchRes, leaf
+				case matchResultOptionalNoData:
+					// the remaining elements still have to match
+					optionalNoData = true
 				case matchResultTrue:
 					// continue
 				case matchResultFalse:
 					return matchResultFalse, leaf
 				}
+			}
+			if optionalNoData {
+				return matchResultOptionalNoData, nil
 			}
 			return matchResultTrue, nil
 		}
